@@ -89,10 +89,14 @@ CLAIMED = {
  'C13': dict(
    text='Unbounded proof (Verus/Z3) over the real body of intersection_table (with CosetTable::{new, get, join, compact} under the contracts of C11): for any two valid tables over '
         'the same generators the result is a valid table whose rows are paired injectively with pairs (row of ta, row of tb), row 0 with (0, 0), compatibly with every generator '
-        '-- the orbit of the pair of base rows in the product action -- and consequently a word fixes its row 0 exactly when it fixes row 0 of both inputs (lemma over the contract).',
+        '-- the orbit of the pair of base rows in the product action -- and consequently a word fixes its row 0 exactly when it fixes row 0 of both inputs (lemma over the contract). '
+        'induced_table (at T = Vec<usize>, its only instantiation) and core_table (real bodies): for a closure that is a function on views in which the inverse generator undoes the '
+        'generator, the result is a valid table whose rows are, injectively, the states reached from the start state; for core_table these are the tuples into which the generators '
+        'move the identity tuple of rows of the input, and consequently a word fixes ALL rows of the input exactly when it fixes row 0 of the core (lemma over the contract).',
    note='Trusted: Verus+Z3, vstd; all_gens by its std semantics; `for i in 0..` in desugared form (R19); the product of the two row counts is at most isize::MAX/2 (stated precondition); '
         'termination. NOT decided by contracts (bounded stand-in only): the stabiliser presentation (stabilizer.rs: HashMap / flat_map / BTreeMap::entry code outside the verifier; '
-        '"presents a group isomorphic to the stabiliser" is not a first-order postcondition) and the core table (induced_table is generic over hashed closures).',
+        '"presents a group isomorphic to the stabiliser" is not a first-order postcondition); core row count = order of the generated permutation group (surjectivity onto the reachable tuples). '
+        'HashMap operations of induced_table and the iterator chains of core_table by their std semantics through uninterpreted map views; Rust allocation bound on the number of rows.',
    ref='5 C13', technique=TECH),
  'C05': dict(
    text='Unbounded proof (Verus/Z3) over the real bodies of build_set, build_sym_using_ms, orbit_reps_2d, cover and oriented_cover: for every complete base '
